@@ -188,7 +188,7 @@ impl Check for C05Check {
         300
     }
     fn rule(&self) -> &'static str {
-        "case = ProgGen project (functions, FBs, programs in two tasks) + 6-30 bulk units (each: enum, struct, alias, interface, class implementing it, function, FB with a method and a reference) in seeded order, so every table of the compiler and the encoder holds many keys, + a trace of cycles with boundary inputs, budget faults and restarts; each case is observed in the parent worker and in N fresh child processes (quick 5, thorough 11) that differ in OS process (hash seeds, ASLR), heap padding, thread stack size and environment; distinct non-trivial = distinct project hashes with >= 20 POUs/types whose observations were compared across >= 2 processes"
+        "case = ProgGen project (functions, FBs, programs in two tasks) + 6-30 bulk units (each: enum, struct, alias, interface, class implementing it, function, FB with a method and a reference) in seeded order, so every table of the compiler and the encoder holds many keys, + a trace of cycles with boundary inputs, budget faults and restarts; each case is observed in the parent worker and in N fresh child processes (quick 5, thorough 11) that differ in OS process (hash seeds, ASLR), heap padding, thread stack size and environment; half of the cases attach 2-5 logging I/O drivers that do not commute (different bytes for the whole input image, two failing in one cycle), inputs and driver call log included in the per-cycle digest; distinct non-trivial = distinct project hashes with >= 20 POUs/types whose observations were compared across >= 2 processes"
     }
     fn assumptions(&self) -> Vec<&'static str> {
         vec![
